@@ -237,6 +237,10 @@ class CallMixin:
             q = self.reg.resolve_function(f.id, self.cur_module)
             if q is not None:
                 return self.call_function(q, e, p)
+            if f.id not in p.env:
+                lib = self.library_call(f, e, p)      # a library class / function imported by its bare name (LabelEncoder())
+                if lib is not None:
+                    return lib
             raise Unsupported(f"call of {f.id} at line {e.lineno}")
         if isinstance(f, ast.Attribute):
             if isinstance(f.value, ast.Name) and (f.value.id, f.attr) in NOOP_ATTR_CALLS:
@@ -281,9 +285,13 @@ class CallMixin:
                     self._assume(p, z3.ForAll([i, j], dom[pt.mk(i, j)] == z3.And(0 <= i, i < r, j == 0), patterns=[dom[pt.mk(i, j)]]))
                     self._assume(p, z3.ForAll([i], z3.Implies(z3.And(0 <= i, i < r), val[pt.mk(i, 0)] == TH.ROWSUM(m.val, i, c)), patterns=[val[pt.mk(i, 0)]]))
                     return T.sv_obj("NpArray2", {"_m": T.sv_map(pt, T.REAL, dom, val), "_r": T.sv_int(r), "_c": T.sv_int(z3.IntVal(1))})
+                if f.attr in ("tocsr", "tocsc", "tocoo") and not e.args and not e.keywords:
+                    return recv        # the same table of numbers in another storage format (assumed library contract)
                 raise Unsupported(f"numpy array method {f.attr}")
             if isinstance(recv.ty, T.Obj) and recv.ty.cls in NX_MODIFIES:
                 return self.nx_method(recv, f, e, p)
+            if isinstance(recv.ty, T.Obj) and recv.ty.cls == "LabelEnc":
+                return self.le_method(recv, f, e, p)
             if isinstance(recv.ty, T.Obj):
                 return self.call_method(recv, f, e, p)
             return self.container_method(recv, f, e, p)
@@ -345,6 +353,55 @@ class CallMixin:
             args.append(v.t)
         return T.sv_bool(self.local_fn(name, [a.sort() for a in args])(*args))
 
+    def coo_new(self, e, p):
+        """sparse.coo_array((data, (rows, columns)), shape=(R, C)[, dtype=..]) -- ASSUMED library contract: ValueError unless the three lists
+        are equally long and every coordinate lies inside the shape; the R x C table whose entry (i, j) is 0 when no position addresses
+        (i, j) and the datum of that position when exactly one does (entries addressed several times are their data's sum: not needed,
+        not stated). `coo_pos` is the choice function of axiom coo_pos_def (some position addressing (i, j) if there is one). The element
+        type (dtype) is assumed to hold the data exactly."""
+        kw = {k.arg: k.value for k in e.keywords}
+        a = e.args[0] if len(e.args) == 1 else None
+        if not (isinstance(a, ast.Tuple) and len(a.elts) == 2 and isinstance(a.elts[1], ast.Tuple) and len(a.elts[1].elts) == 2 and "shape" in kw
+                and set(kw) <= {"shape", "dtype"}):
+            raise Unsupported("sparse.coo_array in this form")
+        if "NpArray2" not in self.reg.layouts:
+            raise Unsupported("layout NpArray2 is not registered (numpy model)")
+        seqs = []
+        for x in (a.elts[0], a.elts[1].elts[0], a.elts[1].elts[1]):
+            v = self.ev(x, p)
+            if v.ty == T.EMPTYLIST:
+                v = self.coerce(v, T.Seq(T.INT))
+            if not (isinstance(v.ty, T.Seq) and v.ty.e == T.INT):
+                raise Unsupported(f"sparse.coo_array over {v.ty}")
+            seqs.append(v)
+        data, rows, cols = seqs
+        note = f"line {e.lineno}"
+        shape = self.unopt(self.ev(kw["shape"], p), p, note)
+        pt = T.Pair(T.INT, T.INT)
+        if shape.ty == T.TUP:
+            self._raise_if(p, TH.tlen(shape.t) != 2, "ValueError", note)
+            R, C = TH.tat(shape.t, z3.IntVal(0)), TH.tat(shape.t, z3.IntVal(1))
+        elif shape.ty == pt:
+            R, C = pt.fst(shape.t), pt.snd(shape.t)
+        else:
+            raise Unsupported(f"shape of type {shape.ty}")
+        q = fresh("q", T.I)
+        inside = z3.ForAll([q], z3.Implies(z3.And(0 <= q, q < rows.len), z3.And(0 <= rows.at[q], rows.at[q] < R, 0 <= cols.at[q], cols.at[q] < C)),
+                           patterns=[rows.at[q], cols.at[q]])
+        self._raise_if(p, z3.Not(z3.And(rows.len == cols.len, data.len == rows.len, R >= 0, C >= 0, inside)), "ValueError", note)
+        dom = fresh("coo_dom", z3.ArraySort(pt.sort(), T.B))
+        val = fresh("coo_val", z3.ArraySort(pt.sort(), T.R))
+        dup = z3.Function(f"coo_dup!{next(T._fresh)}", T.I, T.I, T.I)
+        i, j = fresh("i", T.I), fresh("j", T.I)
+        self._assume(p, z3.ForAll([i, j], dom[pt.mk(i, j)] == z3.And(0 <= i, i < R, 0 <= j, j < C), patterns=[dom[pt.mk(i, j)]]))
+        c, d = TH.coo_pos(rows.at, cols.at, rows.len, i, j), dup(i, j)
+        addressed = z3.And(0 <= c, c < rows.len, rows.at[c] == i, cols.at[c] == j)
+        again = z3.And(0 <= d, d < rows.len, d != c, rows.at[d] == i, cols.at[d] == j)
+        self._assume(p, z3.ForAll([i, j], z3.And(z3.Implies(z3.Not(addressed), val[pt.mk(i, j)] == 0),
+                                                 z3.Implies(addressed, z3.Or(val[pt.mk(i, j)] == z3.ToReal(data.at[c]), again))),
+                                  patterns=[val[pt.mk(i, j)]]))
+        return T.sv_obj("NpArray2", {"_m": T.sv_map(pt, T.REAL, dom, val), "_r": T.sv_int(R), "_c": T.sv_int(C)})
+
     def library_call(self, f, e, p):
         """Assumed contracts of random-number functions: the result is havoc within its documented range, so whatever
         is proved holds for every outcome of the draw."""
@@ -395,6 +452,25 @@ class CallMixin:
             if isinstance(v.ty, T.Seq):
                 return v           # np.array(list): the same sequence of values
             raise Unsupported(f"np.array of {v.ty}")
+        if name in ("LabelEncoder", "preprocessing.LabelEncoder", "sklearn.preprocessing.LabelEncoder") and not e.args and not e.keywords:
+            if "LabelEnc" not in self.reg.layouts:
+                raise Unsupported("layout LabelEnc is not registered (label-encoder model)")
+            # an encoder that has not been fitted: no label known
+            return T.sv_obj("LabelEnc", {"_enc": T.sv_map(T.INT, T.INT, z3.K(T.I, z3.BoolVal(False)), z3.K(T.I, z3.IntVal(0))),
+                                         "_inv": T.sv_map(T.INT, T.INT, z3.K(T.I, z3.BoolVal(False)), z3.K(T.I, z3.IntVal(0)))})
+        if name in ("np.ones_like", "numpy.ones_like") and len(e.args) == 1 and not e.keywords:
+            v = self.ev(e.args[0], p)
+            if v.ty == T.EMPTYLIST:
+                v = self.coerce(v, T.Seq(T.INT))
+            if isinstance(v.ty, T.Seq) and v.ty.e == T.INT:
+                # np.ones_like(list of ints): as many ones (assumed library contract)
+                at = fresh("ones", z3.ArraySort(T.I, T.I))
+                k = fresh("k", T.I)
+                self._assume(p, z3.ForAll([k], at[k] == 1, patterns=[at[k]]))
+                return T.sv_seq(T.INT, v.len, at)
+            raise Unsupported(f"np.ones_like of {v.ty}")
+        if name in ("sparse.coo_array", "sparse.coo_matrix", "scipy.sparse.coo_array", "scipy.sparse.coo_matrix"):
+            return self.coo_new(e, p)
         if name == "dict.fromkeys" and len(e.args) == 1 and not e.keywords:
             # dict.fromkeys(xs): the distinct elements of xs as keys (values None, never read here); iterating it visits every distinct element once
             v = self.ev(e.args[0], p)
@@ -482,6 +558,56 @@ class CallMixin:
             self._assume(p, z3.ForAll([x], gv2[x] == z3.Or(gv.t[x], mem), patterns=[gv2[x]]))
             return put(gv2, ge.t, (gw.dom, gw.val))
         raise Unsupported(f"networkx method {f.attr} in this form")
+
+    def le_facts(self, p, enc, inv):
+        """ASSUMED library contract of a fitted sklearn LabelEncoder: the known labels are numbered 0..N-1 bijectively (`_inv` is the inverse
+        table; that the numbering follows the sorted order of the labels is not stated)."""
+        n, i = fresh("n", T.I), fresh("i", T.I)
+        N = T.Set(T.INT).card()(enc.dom)
+        self._assume(p, N >= 0)
+        self._assume(p, z3.ForAll([n], z3.Implies(enc.dom[n], z3.And(0 <= enc.val[n], enc.val[n] < N, inv.dom[enc.val[n]], inv.val[enc.val[n]] == n)),
+                                  patterns=[enc.val[n], enc.dom[n]]))
+        self._assume(p, z3.ForAll([i], inv.dom[i] == z3.And(0 <= i, i < N), patterns=[inv.dom[i]]))
+        self._assume(p, z3.ForAll([i], z3.Implies(z3.And(0 <= i, i < N), z3.And(enc.dom[inv.val[i]], enc.val[inv.val[i]] == i)), patterns=[inv.val[i], inv.dom[i]]))
+
+    def le_method(self, recv, f, e, p):
+        """Methods of the label-encoder model (assumed library contracts): fit(labels), transform(tuple | list)."""
+        enc, inv = recv.fields["_enc"], recv.fields["_inv"]
+        note = f"line {e.lineno}"
+        if f.attr == "fit" and len(e.args) == 1 and not e.keywords:
+            if not isinstance(f.value, ast.Name):
+                raise Unsupported("fit on a computed receiver")
+            s = self.as_set(self.ev(e.args[0], p), p)
+            if s.ty == T.EMPTYSET:
+                s = self.coerce(s, T.Set(T.INT))
+            if s.ty != T.Set(T.INT):
+                raise Unsupported(f"LabelEncoder.fit over {s.ty}")
+            enc2 = T.sv_map(T.INT, T.INT, s.t, fresh("enc_val", z3.ArraySort(T.I, T.I)))
+            inv2 = T.sv_map(T.INT, T.INT, fresh("inv_dom", z3.ArraySort(T.I, T.B)), fresh("inv_val", z3.ArraySort(T.I, T.I)))
+            self.le_facts(p, enc2, inv2)
+            obj = T.sv_obj("LabelEnc", {"_enc": enc2, "_inv": inv2})
+            p.env[f.value.id] = obj
+            return obj
+        if f.attr == "transform" and len(e.args) == 1 and not e.keywords:
+            v = self.ev(e.args[0], p)
+            if v.ty == T.TUP:
+                # element-wise encoding of a node tuple (ValueError for a label that was not fitted); stated through membership, for an
+                # encoder whose tables are inverse to each other
+                n, x = fresh("n", T.I), fresh("x", T.I)
+                self._raise_if(p, z3.Exists([n], z3.And(TH.tmem(v.t, n), z3.Not(enc.dom[n]))), "ValueError", note)
+                r = fresh("encoded", T.TupS)
+                self._assume(p, TH.tlen(r) == TH.tlen(v.t))
+                self._assume(p, z3.ForAll([n], z3.Implies(TH.tmem(v.t, n), TH.tmem(r, enc.val[n])), patterns=[TH.tmem(v.t, n)]))
+                self._assume(p, z3.ForAll([x], z3.Implies(TH.tmem(r, x), z3.And(inv.dom[x], TH.tmem(v.t, inv.val[x]))), patterns=[TH.tmem(r, x)]))
+                return T.scalar(T.TUP, r)
+            if isinstance(v.ty, T.Seq) and v.ty.e == T.INT:
+                j = fresh("j", T.I)
+                self._raise_if(p, z3.Exists([j], z3.And(0 <= j, j < v.len, z3.Not(enc.dom[v.at[j]]))), "ValueError", note)
+                at = fresh("encoded_at", z3.ArraySort(T.I, T.I))
+                self._assume(p, z3.ForAll([j], z3.Implies(z3.And(0 <= j, j < v.len), at[j] == enc.val[v.at[j]]), patterns=[at[j], v.at[j]]))
+                return T.sv_seq(T.INT, v.len, at)
+            raise Unsupported(f"LabelEncoder.transform of {v.ty}")
+        raise Unsupported(f"LabelEncoder method {f.attr}")
 
     def rng_choice(self, e, p):
         """Generator.choice(population_list, size=k, replace=False): k distinct positions of the list, i.e. a sub-bag of size k
@@ -704,7 +830,7 @@ class CallMixin:
         pt = T.Pair(a.ty.e, b.ty.e)
         at = fresh("zip", z3.ArraySort(T.I, pt.sort()))
         j = fresh("j", T.I)
-        self._assume(p, z3.ForAll([j], at[j] == pt.mk(a.at[j], b.at[j]), patterns=[at[j]]))
+        self._assume(p, z3.ForAll([j], at[j] == pt.mk(a.at[j], b.at[j]), patterns=[at[j], a.at[j], b.at[j]]))
         return T.sv_seq(pt, z3.If(a.len <= b.len, a.len, b.len), at)
 
     def bi_sorted(self, e, p):
@@ -817,6 +943,18 @@ class CallMixin:
             v = self.ev(e.args[0], p)
             if v.ty == T.META or isinstance(v.ty, T.Map) or v.ty == T.EMPTYDICT:
                 return v          # a copy: values have no identity in this model
+            if isinstance(v.ty, T.Seq) and isinstance(v.ty.e, T.Pair) and v.ty.e.a.scalar and v.ty.e.b.scalar:
+                # dict(list of (key, value) pairs): the keys are the first components; a key's value is the second component at the LAST
+                # position holding that key (`last`: Skolem function of the key)
+                pt = v.ty.e
+                last = z3.Function(f"lastpos!{next(T._fresh)}", pt.a.sort(), T.I)
+                dom = fresh("dz_dom", z3.ArraySort(pt.a.sort(), T.B))
+                val = fresh("dz_val", z3.ArraySort(pt.a.sort(), pt.b.sort()))
+                x, j = fresh("x", pt.a.sort()), fresh("j", T.I)
+                self._assume(p, z3.ForAll([x], dom[x] == z3.And(0 <= last(x), last(x) < v.len, pt.fst(v.at[last(x)]) == x), patterns=[dom[x]]))
+                self._assume(p, z3.ForAll([j], z3.Implies(z3.And(0 <= j, j < v.len), z3.And(dom[pt.fst(v.at[j])], last(pt.fst(v.at[j])) >= j)), patterns=[v.at[j]]))
+                self._assume(p, z3.ForAll([x], z3.Implies(dom[x], val[x] == pt.snd(v.at[last(x)])), patterns=[val[x]]))
+                return T.sv_map(pt.a, pt.b, dom, val)
         raise Unsupported("dict(...)")
 
     def deepcopy(self, e, p):
@@ -879,6 +1017,19 @@ class CallMixin:
         if isinstance(rt, T.Seq) and name == "append":
             x = self.coerce(args[0], rt.e)
             self.store(f.value, T.sv_seq(rt.e, recv.len + 1, z3.Store(recv.at, recv.len, x.t)), p)
+            return T.sv_none()
+        if isinstance(rt, T.Seq) and name == "extend" and len(args) == 1 and (isinstance(args[0].ty, T.Seq) or args[0].ty == T.EMPTYLIST):
+            # positional concatenation: the old positions keep their elements, the new ones follow in the argument's order
+            b = self.coerce(args[0], rt)
+            if b.ty.e != rt.e:
+                raise Unsupported(f"extend of {rt} by {b.ty}")
+            at = fresh("ext", z3.ArraySort(T.I, rt.e.sort()))
+            i, k = fresh("i", T.I), fresh("k", T.I)
+            l1, l2 = recv.len, b.len
+            self._assume(p, z3.ForAll([i], z3.Implies(z3.And(0 <= i, i < l1), at[i] == recv.at[i]), patterns=[at[i], recv.at[i]]))
+            self._assume(p, z3.ForAll([k], z3.Implies(z3.And(0 <= k, k < l2), at[l1 + k] == b.at[k]), patterns=[b.at[k]]))
+            self._assume(p, z3.ForAll([i], z3.Implies(z3.And(l1 <= i, i < l1 + l2), at[i] == b.at[i - l1]), patterns=[at[i]]))
+            self.store(f.value, T.sv_seq(rt.e, l1 + l2, at), p)
             return T.sv_none()
         if isinstance(rt, T.Bag):
             if name == "append":
@@ -1004,6 +1155,19 @@ class CallMixin:
                     return T.scalar(T.TUP, TH.tfilter_ne(src.t, x.t))
             raise Unsupported("list comprehension over a node tuple of this shape")
         src = self.as_listing(src, p) if isinstance(src.ty, (T.Map, T.Set)) else src
+        if isinstance(src.ty, T.Bag) and src.ty.e.scalar and self.cur is not None and "listing_bags" in self.cur.options and not self.spec_mode:
+            # the list handed out by a call, used positionally: a duplicate-free list (obligation) is a positional listing of its elements,
+            # every one once, in an order that is not modelled. It is kept as the pseudo-local `_listed<k>` for the postcondition.
+            x = fresh("x", src.ty.e.sort())
+            self.oblige("listing:bag", "the list that is enumerated positionally has no repeated element", p, z3.ForAll([x], src.t[x] <= 1, patterns=[src.t[x]]))
+            st = T.Set(src.ty.e)
+            sup = fresh("listed_set", st.sort())
+            self._assume(p, z3.ForAll([x], sup[x] == (src.t[x] >= 1), patterns=[sup[x], src.t[x]]))
+            seq = self.uniq_seq(st, sup, p)
+            self._assume(p, seq.len == src.ty.blen()(src.t))
+            k = sum(1 for n in p.env if n.startswith("_listed"))
+            p.env[f"_listed{k}"] = seq
+            src = seq
         if isinstance(src.ty, T.Seq):
             return self.seq_comp(src, target, e.elt, ifs, p, e.lineno)
         if not isinstance(src.ty, T.Bag):
